@@ -61,6 +61,8 @@ type c21Case struct {
 	Verify    string        // skip | roots
 	Upstreams []c21Upstream // HostClient: exactly one; LBClient: one HostClient each
 	Ops       []c21Op
+	Refuse    []string `json:",omitempty"` // dialled addresses the fake network refuses (dial error)
+	WrongCert []string `json:",omitempty"` // dialled addresses whose peer holds only the OTHER host's certificate
 }
 
 func (t c21Target) hostport() string {
@@ -113,6 +115,12 @@ func c21CaseString(cs *c21Case) string {
 	fmt.Fprintf(&sb, "%s hook=%s verify=%s", cs.Client, cs.Hook, cs.Verify)
 	for _, u := range cs.Upstreams {
 		fmt.Fprintf(&sb, " upstream(%s,tls=%v)", u.Addr, u.IsTLS)
+	}
+	if len(cs.Refuse) > 0 {
+		fmt.Fprintf(&sb, " refuse-dial%v", cs.Refuse)
+	}
+	if len(cs.WrongCert) > 0 {
+		fmt.Fprintf(&sb, " peer-with-other-hosts-cert%v", cs.WrongCert)
 	}
 	for _, o := range cs.Ops {
 		fmt.Fprintf(&sb, " %s%s %s://%s", o.Via, map[bool]string{true: "(" + o.Build + ")"}[o.Build != ""], o.T.Scheme, o.T.hostport())
@@ -217,9 +225,13 @@ type c21ConnRec struct {
 	SNI  string
 	HSErr string
 	Reqs []c21ReqRec
+	CertFor string // host name the peer's certificate is valid for
 }
 
 type c21Net struct {
+	refuse    map[string]bool
+	wrongCert map[string]bool
+	refused   int
 	mu      sync.Mutex
 	conns   []*c21ConnRec
 	ends    []*c21End
@@ -227,10 +239,26 @@ type c21Net struct {
 	aborted bool
 }
 
+func c21HostOf(addr string) string {
+	if h, _, err := net.SplitHostPort(addr); err == nil {
+		return h
+	}
+	return addr
+}
+
 func (n *c21Net) dial(addr, hook string) (net.Conn, error) {
+	if n.refuse[addr] {
+		n.mu.Lock()
+		n.refused++
+		n.mu.Unlock()
+		return nil, &net.OpError{Op: "dial", Net: "c21", Err: fmt.Errorf("connection refused by %s", addr)}
+	}
 	a, b := c21NewHalf(), c21NewHalf()
 	n.mu.Lock()
-	rec := &c21ConnRec{ID: len(n.conns) + 1, Addr: addr, Hook: hook}
+	rec := &c21ConnRec{ID: len(n.conns) + 1, Addr: addr, Hook: hook, CertFor: c21HostOf(addr)}
+	if n.wrongCert[addr] {
+		rec.CertFor = map[string]string{"hosta": "hostb", "hostb": "hosta"}[rec.CertFor]
+	}
 	cl := &c21End{r: a, w: b, rec: rec, isClient: true}
 	sv := &c21End{r: b, w: a, rec: rec}
 	n.conns = append(n.conns, rec)
@@ -261,7 +289,7 @@ func (n *c21Net) serve(rec *c21ConnRec, sv *c21End) {
 	}
 	var w io.Writer = sv
 	if first[0] == 0x16 {
-		tc := tls.Server(&c21SrvConn{c21End: sv, br: br}, c21ServerTLS())
+		tc := tls.Server(&c21SrvConn{c21End: sv, br: br}, c21SrvCfg[rec.CertFor])
 		if err := tc.Handshake(); err != nil {
 			rec.mu.Lock()
 			rec.HSErr = err.Error()
@@ -300,39 +328,40 @@ func (n *c21Net) serve(rec *c21ConnRec, sv *c21End) {
 
 var (
 	c21Once   sync.Once
-	c21SrvCfg *tls.Config
+	c21SrvCfg = map[string]*tls.Config{} // host name -> server config holding only that host's certificate
 	c21Roots  *x509.CertPool
 	c21CertEr error
 )
 
-func c21ServerTLS() *tls.Config { return c21SrvCfg }
-
+// c21InitCert makes one self-signed certificate per host name; the client's RootCAs pool holds both.
 func c21InitCert() error {
 	c21Once.Do(func() {
-		priv, err := ecdsa.GenerateKey(elliptic.P256(), rand.Reader)
-		if err != nil {
-			c21CertEr = err
-			return
-		}
-		tmpl := &x509.Certificate{
-			SerialNumber: big.NewInt(21), Subject: pkix.Name{Organization: []string{"verif C21"}},
-			NotBefore: time.Now().Add(-time.Hour), NotAfter: time.Now().Add(48 * time.Hour),
-			KeyUsage: x509.KeyUsageCertSign | x509.KeyUsageDigitalSignature, ExtKeyUsage: []x509.ExtKeyUsage{x509.ExtKeyUsageServerAuth},
-			DNSNames: []string{"hosta", "hostb"}, BasicConstraintsValid: true, IsCA: true,
-		}
-		der, err := x509.CreateCertificate(rand.Reader, tmpl, tmpl, &priv.PublicKey, priv)
-		if err != nil {
-			c21CertEr = err
-			return
-		}
-		leaf, err := x509.ParseCertificate(der)
-		if err != nil {
-			c21CertEr = err
-			return
-		}
 		c21Roots = x509.NewCertPool()
-		c21Roots.AddCert(leaf)
-		c21SrvCfg = &tls.Config{Certificates: []tls.Certificate{{Certificate: [][]byte{der}, PrivateKey: priv, Leaf: leaf}}}
+		for i, host := range []string{"hosta", "hostb"} {
+			priv, err := ecdsa.GenerateKey(elliptic.P256(), rand.Reader)
+			if err != nil {
+				c21CertEr = err
+				return
+			}
+			tmpl := &x509.Certificate{
+				SerialNumber: big.NewInt(int64(21 + i)), Subject: pkix.Name{Organization: []string{"verif C21 " + host}},
+				NotBefore: time.Now().Add(-time.Hour), NotAfter: time.Now().Add(48 * time.Hour),
+				KeyUsage: x509.KeyUsageCertSign | x509.KeyUsageDigitalSignature, ExtKeyUsage: []x509.ExtKeyUsage{x509.ExtKeyUsageServerAuth},
+				DNSNames: []string{host}, BasicConstraintsValid: true, IsCA: true,
+			}
+			der, err := x509.CreateCertificate(rand.Reader, tmpl, tmpl, &priv.PublicKey, priv)
+			if err != nil {
+				c21CertEr = err
+				return
+			}
+			leaf, err := x509.ParseCertificate(der)
+			if err != nil {
+				c21CertEr = err
+				return
+			}
+			c21Roots.AddCert(leaf)
+			c21SrvCfg[host] = &tls.Config{Certificates: []tls.Certificate{{Certificate: [][]byte{der}, PrivateKey: priv, Leaf: leaf}}}
+		}
 	})
 	return c21CertEr
 }
@@ -343,6 +372,7 @@ func c21InitCert() error {
 type c21Counters struct {
 	cases, tlsSessions, plainConns, httpsDelivered, httpDelivered, refusals, lbRefusals, crossSchemeRedirects int64
 	reuses, bothSchemesSameAddr, hsFailed, dialHook, dialTimeoutHook, mapEntries                            int64
+	failoverOK, failoverErr, wrongCertConns, wrongCertRejected, refusedDials                                int64
 }
 
 func (c *c21Counters) flush(r *vrt.R) {
@@ -352,6 +382,9 @@ func (c *c21Counters) flush(r *vrt.R) {
 		"c21_hostclient_scheme_refusals_checked": c.refusals, "c21_lbclient_scheme_refusals_seen": c.lbRefusals,
 		"c21_redirects_crossing_scheme_followed_or_refused": c.crossSchemeRedirects, "c21_requests_on_reused_connection": c.reuses,
 		"c21_cases_with_same_hostport_used_for_both_schemes": c.bothSchemesSameAddr, "c21_tls_handshakes_failed": c.hsFailed,
+		"c21_fault_cases_calls_succeeded_after_failover": c.failoverOK, "c21_fault_cases_calls_failed": c.failoverErr,
+		"c21_conns_to_peer_with_other_hosts_certificate": c.wrongCertConns, "c21_handshakes_rejected_for_other_hosts_certificate": c.wrongCertRejected,
+		"c21_dials_refused_by_fake_network": c.refusedDials,
 		"c21_dials_via_Dial": c.dialHook, "c21_dials_via_DialTimeout": c.dialTimeoutHook, "c21_client_map_entries_checked": c.mapEntries,
 	} {
 		if v != 0 {
@@ -475,7 +508,14 @@ func c21ErrClass(err error) string {
 var c21ClearHTTPS = regexp.MustCompile(`[A-Z]+ /[tr]/[0-9]+-[0-9]+-https-`)
 
 func c21Run(r *vrt.R, cs *c21Case, ct *c21Counters, sample bool) {
-	n := &c21Net{}
+	n := &c21Net{refuse: map[string]bool{}, wrongCert: map[string]bool{}}
+	for _, a := range cs.Refuse {
+		n.refuse[a] = true
+	}
+	for _, a := range cs.WrongCert {
+		n.wrongCert[a] = true
+	}
+	faulty := len(cs.Refuse)+len(cs.WrongCert) > 0
 	wd := time.AfterFunc(60*time.Second, n.abort)
 	res, cl, bad := c21Exec(cs, n)
 	if bad != "" {
@@ -550,8 +590,12 @@ func c21Run(r *vrt.R, cs *c21Case, ct *c21Counters, sample bool) {
 					viol(fmt.Sprintf("hostclient-tls-%v-did-not-refuse-%s-%s:%s", cs.Upstreams[0].IsTLS, strings.ToLower(all[refusedFrom].Scheme), how, c21ErrClass(rs.err)),
 						fmt.Sprintf("op %d: HostClient{IsTLS:%v} got a %s URL (%s), error is %v", i, cs.Upstreams[0].IsTLS, all[refusedFrom].Scheme, how, rs.err))
 				}
-			} else if rs.err != nil {
+			} else if rs.err != nil && !faulty {
 				viol("hostclient-call-failed:"+c21ErrClass(rs.err), fmt.Sprintf("op %d with matching scheme failed: %v", i, rs.err))
+			} else if rs.err == nil && faulty {
+				ct.failoverOK++
+			} else if faulty {
+				ct.failoverErr++
 			}
 		case "LBClient":
 			if rs.err == ErrHostClientRedirectToDifferentScheme {
@@ -569,6 +613,7 @@ func c21Run(r *vrt.R, cs *c21Case, ct *c21Counters, sample bool) {
 	}
 
 	// per connection logs
+	ct.refusedDials += int64(n.refused)
 	delivered := map[string]int{}
 	sawTLS, sawPlain := false, false
 	for _, c := range n.conns {
@@ -601,6 +646,18 @@ func c21Run(r *vrt.R, cs *c21Case, ct *c21Counters, sample bool) {
 		}
 		if c.TLS && (len(c.Raw) == 0 || c.Raw[0] != 0x16 || bytes.Contains(c.Raw, []byte("HTTP/1.1"))) {
 			viol("tls-conn-with-cleartext-http", fmt.Sprintf("conn %d to %s: raw bytes %q", c.ID, c.Addr, c21Clip(c.Raw)))
+		}
+		// every TLS session is for the host actually dialled
+		if c.TLS && c.SNI != c21HostOf(c.Addr) {
+			viol("tls-sni-differs-from-dialled-host:"+strings.ToLower(cs.Client), fmt.Sprintf("conn %d dialled as %s has a TLS session with SNI %q", c.ID, c.Addr, c.SNI))
+		}
+		if c.CertFor != c21HostOf(c.Addr) {
+			ct.wrongCertConns++
+			if c.TLS && cs.Verify == "roots" {
+				viol("tls-session-with-peer-holding-other-hosts-certificate:"+strings.ToLower(cs.Client), fmt.Sprintf("conn %d dialled as %s: the peer presented only %s's certificate and the verifying client completed the handshake (SNI %q), %d request(s) delivered", c.ID, c.Addr, c.CertFor, c.SNI, len(c.Reqs)))
+			} else if !c.TLS && c.HSErr != "" {
+				ct.wrongCertRejected++
+			}
 		}
 		for _, q := range c.Reqs {
 			parts := strings.Split(q.Path[3:], "-")
@@ -667,7 +724,7 @@ func c21Run(r *vrt.R, cs *c21Case, ct *c21Counters, sample bool) {
 		}
 		cl.mLock.RUnlock()
 	}
-	if (sawTLS && sawPlain) || anyRefusal {
+	if (sawTLS && sawPlain) || anyRefusal || (faulty && (n.refused > 0 || sawTLS)) {
 		r.Nontrivial(c21CaseString(cs))
 	}
 	if sample && r.WantSample() {
@@ -890,6 +947,39 @@ func c21Spaces(r *vrt.R) []c21Space {
 				}
 			}
 		}})
+	sp = append(sp, c21Space{"K5: TLS HostClient with several addresses (hosta:443,hostb:443 / hostb:443,hosta:443 / hosta:443,hostb:443,hosta:8443), one certificate per host name, verification {RootCAs pool, InsecureSkipVerify} x fake network refusing to dial {none, 1st, 2nd address} x peer holding only the other host's certificate at {none, 1st, 2nd, 1st+2nd address} x every sequence of 1..2 Do calls over {https hosta, https hostb, https hosta:443, http hosta}",
+		func(yield func(*c21Case) bool) {
+			ops := []c21Target{{"https", "hosta", ""}, {"https", "hostb", ""}, {"https", "hosta", "443"}, {"http", "hosta", ""}}
+			for _, addrs := range [][]string{{"hosta:443", "hostb:443"}, {"hostb:443", "hosta:443"}, {"hosta:443", "hostb:443", "hosta:8443"}} {
+				for _, verify := range []string{"roots", "skip"} {
+					for ref := 0; ref < 3; ref++ {
+						for wc := 0; wc < 4; wc++ {
+							for n := 1; n <= 2; n++ {
+								ok := seqx.Product(dimsN(n, len(ops)), -1, func(x []int) bool {
+									cs := c21Case{Client: "HostClient", Hook: "Dial", Verify: verify, Upstreams: []c21Upstream{{strings.Join(addrs, ","), true}}}
+									if ref > 0 {
+										cs.Refuse = []string{addrs[ref-1]}
+									}
+									switch wc {
+									case 1, 2:
+										cs.WrongCert = []string{addrs[wc-1]}
+									case 3:
+										cs.WrongCert = []string{addrs[0], addrs[1]}
+									}
+									for _, s := range x {
+										cs.Ops = append(cs.Ops, c21Op{Via: "Do", T: ops[s]})
+									}
+									return yield(&cs)
+								})
+								if !ok {
+									return
+								}
+							}
+						}
+					}
+				}
+			}
+		}})
 	lbs := [][]c21Upstream{
 		{{"hosta:80", false}, {"hosta:443", true}},
 		{{"hosta:443", true}, {"hosta:80", false}},
@@ -941,7 +1031,7 @@ func TestVerif_C21(t *testing.T) {
 	}
 	r.Rule("request sequences and http<->https redirects through Client, HostClient and LBClient over a fake network with in-memory TLS endpoints (dial hooks return pipe ends; the server end sniffs 0x16 and runs crypto/tls with a run-time self-signed ECDSA certificate, else plaintext HTTP). " +
 		"Enumerated spaces, each completely: " + strings.Join(names, " || ") + ". " +
-		"Every request carries its URL's scheme/host/port in its path. Oracle from the per-connection logs after all server goroutines were joined: an https request is decoded only inside an established TLS session (Client: dialled as its own host:port, SNI = its host), its bytes never appear in clear on any dialled connection, raw bytes of a TLS connection start with 0x16 and contain no HTTP/1.1; an http request never arrives inside a TLS session; " +
+		"Every request carries its URL's scheme/host/port in its path. Oracle from the per-connection logs after all server goroutines were joined: an https request is decoded only inside an established TLS session (Client: dialled as its own host:port, SNI = its host), its bytes never appear in clear on any dialled connection, raw bytes of a TLS connection start with 0x16 and contain no HTTP/1.1; an http request never arrives inside a TLS session; the SNI of every TLS session equals the host actually dialled, and a verifying client never completes a handshake with (nor delivers a request to) a peer that holds only another host's certificate; " +
 		"HostClient answers ErrHostClientRedirectToDifferentScheme for a URL whose scheme differs from IsTLS (directly and after redirects) and writes nothing for it; Client delivers every request exactly once with err=nil, and Client.m / Client.ms hold only host clients of their scheme. " +
 		"Non-trivial: the case had both a TLS session and a plaintext connection, or a HostClient refusal")
 	r.Assume("crypto/tls and net/http.ReadRequest on the fake server side",
